@@ -191,10 +191,13 @@ class RenderIterator:
         if not self._closed:
             self._iterator.close()
             del self._iterator
-            if self._finalize_data:
-                self._render_data.finalize()
-            del self._render_data
-            self._closed = True
+            try:
+                if self._finalize_data:
+                    self._render_data.finalize()
+            finally:
+                # Even if finalizing the render data fails
+                del self._render_data
+                self._closed = True
 
     def seek(self, offset: int, whence: Seek = Seek.START) -> None:
         """Sets the frame to be rendered on the next iteration, without affecting
